@@ -1,5 +1,5 @@
 //! Running a live engine in rounds: each round has its own server (tokio
-//! worker count varies 4/1/2/16), its own event log, and a set of client
+//! worker count varies 4/1/2/16, handler task mode alternates), its own event log, and a set of client
 //! threads each driving one keep-alive connection.  Rounds bound the memory of
 //! the event log in the thorough tier and exercise several server instances.
 
@@ -48,7 +48,9 @@ pub fn rounds<T: Send + 'static>(
         let log = EvLog::new();
         let ctx = vmon::srv::Ctx::new(log.clone());
         let workers = [4usize, 1, 2, 16][(round % 4) as usize];
-        let cfg = SrvCfg { workers, body_max: plan.body_max, ..Default::default() };
+        // both handler task modes, alternating by round
+        let mode = if round % 2 == 0 { dropshot::HandlerTaskMode::Detached } else { dropshot::HandlerTaskMode::CancelOnDisconnect };
+        let cfg = SrvCfg { workers, body_max: plan.body_max, mode, ..Default::default() };
         let mut running = match vmon::srv::start(api, ctx, &cfg) {
             Ok(r) => r,
             Err(e) => {
@@ -57,6 +59,7 @@ pub fn rounds<T: Send + 'static>(
             }
         };
         rep.count(&format!("server-instances:workers-{workers}"), 1);
+        rep.count(if round % 2 == 0 { "server-instances:detached" } else { "server-instances:cancel-on-disconnect" }, 1);
         let addr = running.addr;
         let (property, engine, rule, seed) = (plan.property, plan.engine, plan.rule, plan.seed);
         let hs: Vec<_> = (0..plan.threads)
